@@ -157,6 +157,11 @@ pub trait Prop: Sync + Send + 'static {
     const NAME: &'static str;
     /// number of random bytes handed to `gen` by the proptest driver
     const BYTES: usize = 64;
+    /// one generated case in `SIBLING_EVERY` is followed by a *sibling* (the same generator input
+    /// with one or two bytes changed, i.e. the same case with one or two choices drawn again) and
+    /// then judged a second time: the answers of the crate may not depend on what was asked before
+    /// (0 = never)
+    const SIBLING_EVERY: u64 = 4;
     fn gen(u: &mut Unstructured<'_>) -> arbitrary::Result<Self::Case>;
     fn check(case: &Self::Case, cx: &mut Cx) -> Verdict;
 }
@@ -299,11 +304,20 @@ pub struct Replay {
     pub actual: String,
     pub signature: String,
     pub shrunk: bool,
+    /// cases of the same sub-check judged on the same thread directly before `case` (history
+    /// independence: the verdict of `case` must not depend on them); empty for ordinary cases
+    #[serde(default, skip_serializing_if = "Vec::is_empty")]
+    pub before: Vec<serde_json::Value>,
 }
 
-pub type ReplayFn = fn(&serde_json::Value) -> Result<(Verdict, Vec<&'static str>), String>;
+pub type ReplayFn = fn(&serde_json::Value, &[serde_json::Value]) -> Result<(Verdict, Vec<&'static str>), String>;
 
-fn replay_impl<P: Prop>(v: &serde_json::Value) -> Result<(Verdict, Vec<&'static str>), String> {
+fn replay_impl<P: Prop>(v: &serde_json::Value, before: &[serde_json::Value]) -> Result<(Verdict, Vec<&'static str>), String> {
+    for b in before {
+        let prior: P::Case = serde_json::from_value(b.clone()).map_err(|e| e.to_string())?;
+        let mut cx = Cx::default();
+        let _ = catch(|| P::check(&prior, &mut cx));
+    }
     let case: P::Case = serde_json::from_value(v.clone()).map_err(|e| e.to_string())?;
     let mut cx = Cx::default();
     let verdict = match catch(|| P::check(&case, &mut cx)) {
@@ -427,10 +441,15 @@ impl Env {
     }
 
     fn push_violation<P: Prop>(&mut self, case: &P::Case, f: Failure, shrunk: bool, seed: u64) {
+        self.push_violation_seq::<P>(&[], case, f, shrunk, seed)
+    }
+
+    fn push_violation_seq<P: Prop>(&mut self, before: &[P::Case], case: &P::Case, f: Failure, shrunk: bool, seed: u64) {
         if self.violations.len() >= 8 {
             return;
         }
         self.violations.push(Replay {
+            before: before.iter().map(|c| serde_json::to_value(c).unwrap_or(serde_json::Value::Null)).collect(),
             property: self.property.clone(),
             check: P::NAME.to_string(),
             profile: self.profile.clone(),
@@ -453,7 +472,7 @@ impl Env {
         let cases = ((cases as f64) * self.scale).max(1.0) as u64;
         let threads = self.threads.max(1) as u64;
         let per = (cases + threads - 1) / threads;
-        let results: Mutex<Vec<(Stats, Option<(P::Case, Failure, u64)>)>> = Mutex::new(Vec::new());
+        let results: Mutex<Vec<(Stats, Option<(Vec<P::Case>, P::Case, Failure, u64)>)>> = Mutex::new(Vec::new());
         let env = &*self;
         std::thread::scope(|s| {
             for t in 0..threads {
@@ -472,36 +491,35 @@ impl Env {
                     config.test_name = None;
                     config.max_global_rejects = u32::MAX;
                     let mut runner = TestRunner::new(config);
-                    let strategy = proptest::collection::vec(proptest::num::u8::ANY, P::BYTES);
+                    let strategy = (proptest::collection::vec(proptest::num::u8::ANY, P::BYTES), proptest::num::u64::ANY);
                     let stats = RefCell::new(Stats::default());
                     let failed = std::cell::Cell::new(false);
-                    let res = runner.run(&strategy, |bytes| {
+                    let first: RefCell<Option<(Vec<P::Case>, P::Case, Failure)>> = RefCell::new(None);
+                    let res = runner.run(&strategy, |(bytes, spec)| {
                         if STOP.load(Ordering::Relaxed) && !failed.get() {
                             return Ok(());
                         }
-                        let mut u = Unstructured::new(&bytes);
-                        let case = match P::gen(&mut u) {
-                            Ok(c) => c,
-                            Err(_) => return Ok(()),
-                        };
                         let counting = !failed.get();
-                        match env.judge::<P>(&case, &mut stats.borrow_mut(), counting) {
+                        match env.judge_seq::<P>(&bytes, spec, &mut stats.borrow_mut(), counting) {
                             None => Ok(()),
-                            Some(f) => {
+                            Some((before, case, f)) => {
                                 failed.set(true);
                                 STOP.store(true, Ordering::Relaxed);
-                                Err(TestCaseError::fail(f.actual))
+                                let msg = f.actual.clone();
+                                if first.borrow().is_none() {
+                                    *first.borrow_mut() = Some((before, case, f));
+                                }
+                                Err(TestCaseError::fail(msg))
                             }
                         }
                     });
                     let viol = match res {
                         Ok(()) => None,
-                        Err(TestError::Fail(_, bytes)) => {
-                            let mut u = Unstructured::new(&bytes);
-                            P::gen(&mut u).ok().and_then(|case| {
-                                let mut dummy = Stats::default();
-                                env.judge::<P>(&case, &mut dummy, false).map(|f| (case, f, seed))
-                            })
+                        Err(TestError::Fail(_, (bytes, spec))) => {
+                            let mut dummy = Stats::default();
+                            // a failure that depends on what the thread did before may not reproduce
+                            // from the shrunk input: fall back to the first one seen
+                            env.judge_seq::<P>(&bytes, spec, &mut dummy, false).or_else(|| first.borrow_mut().take()).map(|(b, c, f)| (b, c, f, seed))
                         }
                         Err(TestError::Abort(_)) => None,
                     };
@@ -511,10 +529,58 @@ impl Env {
         });
         for (st, viol) in results.into_inner().unwrap() {
             self.stats.merge(st);
-            if let Some((case, f, seed)) = viol {
-                self.push_violation::<P>(&case, f, true, seed);
+            if let Some((before, case, f, seed)) = viol {
+                self.push_violation_seq::<P>(&before, &case, f, true, seed);
             }
         }
+    }
+
+    /// One generated input: the case, and for one input in `P::SIBLING_EVERY` a sibling case and
+    /// the case again. Returns the failing case with the cases judged before it.
+    fn judge_seq<P: Prop>(&self, bytes: &[u8], spec: u64, stats: &mut Stats, counting: bool) -> Option<(Vec<P::Case>, P::Case, Failure)> {
+        let mut u = Unstructured::new(bytes);
+        let case = match P::gen(&mut u) {
+            Ok(c) => c,
+            Err(_) => return None,
+        };
+        let consumed = bytes.len() - u.len();
+        if let Some(f) = self.judge::<P>(&case, stats, counting) {
+            return Some((Vec::new(), case, f));
+        }
+        if P::SIBLING_EVERY == 0 || consumed == 0 || spec % P::SIBLING_EVERY != P::SIBLING_EVERY - 1 {
+            return None;
+        }
+        let mut s = mix(spec);
+        let mut b2 = bytes.to_vec();
+        let n = if s & 3 == 0 { 2 } else { 1 };
+        s >>= 2;
+        for _ in 0..n {
+            let pos = (s % consumed as u64) as usize;
+            s = mix(s);
+            let val = (s & 0xff) as u8;
+            s >>= 8;
+            b2[pos] = if b2[pos] == val { val ^ 1 } else { val };
+        }
+        let mut u2 = Unstructured::new(&b2);
+        let sib = match P::gen(&mut u2) {
+            Ok(c) => c,
+            Err(_) => return None,
+        };
+        if fingerprint(P::NAME, &sib) == fingerprint(P::NAME, &case) {
+            return None;
+        }
+        if counting {
+            *stats.labels.entry("judged_again_after_a_sibling_case").or_default() += 1;
+        }
+        if let Some(f) = self.judge::<P>(&sib, stats, counting) {
+            return Some((vec![case], sib, f));
+        }
+        let mut scratch = Stats::default();
+        if let Some(mut f) = self.judge::<P>(&case, &mut scratch, false) {
+            f.expected = format!("(the same case passed before a sibling case was judged on this thread) {}", f.expected);
+            return Some((vec![case.clone(), sib], case, f));
+        }
+        None
     }
 
     /// Deterministic enumeration: `chunks` work items distributed over the threads;
@@ -663,6 +729,7 @@ impl Env {
             actual: f.actual,
             signature: f.sig,
             shrunk: false,
+            before: Vec::new(),
         });
     }
 }
